@@ -120,6 +120,8 @@ def cases(tier, r):
     yield 'flags', {'flags': True, 'seed': r.getrandbits(48)}
   for _ in range(100 if tier == 'quick' else 1500):
     yield 'callexpr', {'callexpr': True, 'seed': r.getrandbits(48)}
+  for _ in range(600 if tier == 'quick' else 10000):
+    yield 'grammar', {'grammar': True, 'seed': r.getrandbits(48)}
 
 
 def has_nested_buildable(v):
@@ -404,7 +406,108 @@ def run_callexpr(case):
   return obs
 
 
+# ----------------------------------------------------------------------------------------
+# the path grammar: real printer / parsers vs Model/Paths.lean
+
+G_NAMES = ['p', 'q_1', 'x', 'Abc9', '_', 'extra', 'a0_b', 'é', 'kw']
+G_KEYS = ['a', 'k 1', '', 'dotted.key', 'brack[et]', 'back\\slash', 'tab\there', 'line\nbreak', 'é', 'a=b',
+          'true', '0', ' ', ']', '[', '.', 'x#y', "it's", '"q"', '\\', '\\n', 'cr\rx', '\x7f', '~', 'zero\x00']
+G_ALPHABET = ".[]'\"\\0a_=9n7 Ax\n\tr-"
+G_TEXTS = ['[007]', '[00]', '[0]', 'a..b', 'a[', "['a\\']", "['\\x41']", '["it\'s"]', "['it's']", '', '.', '[]',
+           "['a']]", 'a.b=c=d', '[1]=x', "['k=v']=3", 'a[1 ]', "a['x' ]", '[१]', 'a.é', '.a[\'\\\\\']', "['\\q']",
+           "[-1]", "a[1][2].b['c'][\"d\"]", "['a\\\nb']"]
+
+
+def gen_grammar(r):
+  path = []
+  for _ in range(r.randint(1, 5)):
+    x = r.random()
+    if x < 0.4:
+      path.append(['a', r.choice(G_NAMES)])
+    elif x < 0.6:
+      path.append(['i', r.choice([0, 1, 7, 10, 99, 100, 12345678901234567890])])
+    elif x < 0.7:
+      path.append(['k', {'n': r.choice([0, 3, 42, 1000])}])
+    else:
+      path.append(['k', {'s': r.choice(G_KEYS)}])
+  return path
+
+
+def real_elems(path):
+  out = []
+  for e in path:
+    if e[0] == 'a':
+      out.append(daglish.Attr(e[1]))
+    elif e[0] == 'i':
+      out.append(daglish.Index(e[1]))
+    else:
+      out.append(daglish.Key(e[1]['n'] if 'n' in e[1] else e[1]['s']))
+  return tuple(out)
+
+
+def parsed_proto(fn, text):
+  import warnings
+  try:
+    with warnings.catch_warnings():
+      warnings.simplefilter('ignore')        # literal_eval warns about unknown escapes
+      res = fn(text)
+  except Exception:
+    return 'err'
+  out = []
+  for e in res:
+    if isinstance(e, daglish.Attr):
+      out.append(['a', e.name])
+    elif isinstance(e, daglish.Key) and isinstance(e.key, bool):
+      return 'other'
+    elif isinstance(e, daglish.Key) and isinstance(e.key, int):
+      out.append(['k', {'n': e.key}])
+    elif isinstance(e, daglish.Key) and isinstance(e.key, str):
+      out.append(['k', {'s': e.key}])
+    else:
+      return 'other'
+  return {'ok': out}
+
+
+def mutate(r, text):
+  cs = list(text)
+  for _ in range(r.randint(1, 2)):
+    x = r.random()
+    if x < 0.35 and cs:
+      del cs[r.randrange(len(cs))]
+    elif x < 0.8:
+      cs.insert(r.randint(0, len(cs)), r.choice(G_ALPHABET))
+    elif len(cs) > 1:
+      i = r.randrange(len(cs) - 1)
+      cs[i], cs[i + 1] = cs[i + 1], cs[i]
+  return ''.join(cs)
+
+
+def run_grammar(case):
+  from fiddle._src import daglish_extensions
+  r = random.Random(case['seed'])
+  path = gen_grammar(r)
+  printed = printing._path_str(real_elems(path))
+  texts = [printed, printed + '=' + r.choice(['1', "'a=b'", '', '=']), mutate(r, printed), mutate(r, printed),
+           r.choice(G_TEXTS), ''.join(r.choice(G_ALPHABET) for _ in range(r.randint(1, 8)))]
+  obs = {'grammar': True, 'path': path, 'printed': printed, 'texts': texts, 'out': []}
+  for t in texts:
+    parts = t.split('=', 1)
+    obs['out'].append({'raw': parsed_proto(daglish_extensions.parse_path, t),
+                       'flag': parsed_proto(flag_utils.parse_path, t),
+                       'split': parts if len(parts) == 2 else None})
+  # the property, evaluated directly: within scope the printed text parses back to the path
+  in_scope = all((e[0] == 'a' and e[1].isidentifier()) or e[0] == 'i' or 'n' in e[1]
+                 or ("'" not in e[1]['s'] and '"' not in e[1]['s']) for e in path)
+  want = [['k', {'n': e[1]}] if e[0] == 'i' else e for e in path]
+  obs['in_scope'] = in_scope
+  obs['parses_back'] = (obs['out'][0]['flag'] == {'ok': want}) if in_scope else None
+  return obs
+
+
 def execute(case):
+  if case.get('grammar'):
+    obs = run_grammar(case)
+    return obs, {'p': 'paths', 'path': obs['path'], 'texts': obs['texts']}
   if case.get('flags'):
     obs = run_flags(case)
     script = [[s[0], s[1]] if s[0] == 'parse' else [s[0]] for s in obs['script']]
@@ -417,6 +520,19 @@ def execute(case):
 def compare(real, model):
   if model is None:
     return []
+  if real.get('grammar'):
+    diffs = []
+    mp = model['printed']
+    if mp != 'unsupported' and mp != {'ok': real['printed']}:
+      diffs.append(('printed path', real['printed'], mp))
+    for t, ro, mo in zip(real['texts'], real['out'], model['texts']):
+      for f in ('raw', 'flag'):
+        if mo[f] != 'unsupported' and ro[f] != mo[f]:
+          diffs.append((f'parse_path ({f}) of {t!r}', ro[f], mo[f]))
+      if ro['split'] != mo['split']:
+        diffs.append((f'split of {t!r}', ro['split'], mo['split']))
+    real['m_supported'] = sum(1 for mo in model['texts'] if mo['flag'] != 'unsupported') + (mp != 'unsupported')
+    return diffs
   # the model's abstract configuration is the list of applied directives
   want = [[c, e] for c, e in real['directives']]
   diffs = []
@@ -430,6 +546,11 @@ def compare(real, model):
 
 
 def oracle(case, real):
+  if case.get('grammar'):
+    if real['parses_back'] is False:
+      return {'what': 'a printed path does not parse back to the path it prints', 'path': real['path'],
+              'printed': real['printed'], 'parsed': real['out'][0]['flag']}
+    return None
   if case.get('flags'):
     if real['applied'] != [norm_dir(d) for d in real['directives']]:
       return {'what': 'directives were not applied strictly in command-line order, each exactly once',
@@ -463,6 +584,8 @@ def oracle(case, real):
 
 
 def nontrivial(case, real):
+  if case.get('grammar'):
+    return ('grammar', real['printed'])
   if case.get('flags'):
     return ('flags', json.dumps(real['directives']), json.dumps([s[0] for s in real['script']]))
   if case.get('callexpr'):
